@@ -1,1 +1,45 @@
-(* placeholder *)
+(** C10 — tables keep their identity across restarts; two tables never share
+    identifiers or storage; tables created after a restart do not disturb
+    earlier ones.  For ALL sequences of CREATE TABLE and restarts.
+    Schema and row contents of each table are compared on the real engine by
+    the correspondence run (and are C01/C09's subject for crash/clean restarts).
+    Statements only. *)
+From Coq Require Import List NArith Bool.
+From SDB Require Import Model.Catalog Proofs.CatalogProofs.
+Import ListNotations.
+Open Scope N_scope.
+
+Theorem oids_unique : forall fp ops, NoDup (map fst (tabs (crun1 reload ops (bootstrap fp)))).
+Proof. exact oids_unique_lemma. Qed.
+Print Assumptions oids_unique.
+
+Theorem create_after_reload_fresh : forall fp ops fp',
+  let c := crun1 reload ops (bootstrap fp) in
+  ~ In (next_id c) (map fst (tabs c)) /\
+  tabs (cstep1 reload c (Create fp')) = tabs c ++ [(next_id c, fp')].
+Proof. exact create_fresh_lemma. Qed.
+Print Assumptions create_after_reload_fresh.
+
+(** No step ever removes or changes an existing table entry. *)
+Theorem existing_tables_undisturbed : forall ops c, exists ext, tabs (crun1 reload ops c) = tabs c ++ ext.
+Proof. exact tabs_monotone. Qed.
+Print Assumptions existing_tables_undisturbed.
+
+(** Two tables never share their first page, given that the pool hands out
+    page ids that are not in use (C13 new_id_fresh). *)
+Theorem storage_disjoint : forall fp ops, NoDup (fp :: pages_of_ops ops) ->
+  NoDup (map snd (tabs (crun1 reload ops (bootstrap fp)))).
+Proof. exact storage_disjoint_lemma. Qed.
+Print Assumptions storage_disjoint.
+
+(** The reload of the pinned tree before the fix (numbering restarted at 1) violated it:
+    machine-checked witness, replayed on the implementation as corpus case F-CAT-OID. *)
+Theorem reload_hardcoded_refuted :
+  exists ops, ~ NoDup (map fst (tabs (crun1 reload_hardcoded ops (bootstrap 0)))).
+Proof. exact reload_hardcoded_refuted_lemma. Qed.
+Print Assumptions reload_hardcoded_refuted.
+
+Example c10_nonvacuous :
+  map fst (tabs (crun1 reload [Create 2; Create 3; Restart; Create 4; Restart; Restart; Create 9] (bootstrap 0)))
+  = [0; 1; 2; 3; 4].
+Proof. vm_compute. reflexivity. Qed.
